@@ -127,10 +127,10 @@ def check_one(chk, rep, repo, cls, eff):
     scans = find_knn_scans(wk)
     # the number of neighbours consulted is a property of the model: it must not depend on the batch being predicted
     for sc0 in scans:
-        dep = [t for t in subterms(sc0.slot) if t[0] == "new" and t[1] in ("Subgraph", "KNNSubgraph")] + \
-              [t for t in subterms(sc0.slot) if t[0] == "param"]
+        dep = [t for t in subterms(sc0.k) if t[0] == "new" and t[1] in ("Subgraph", "KNNSubgraph")] + \
+              [t for t in subterms(sc0.k) if t[0] == "param"]
         rep.fn("NI-k", fn, "the number of neighbours does not depend on the query batch", not dep,
-               f"k is '{show(sc0.slot)[:100]}': it reads the prediction subgraph / the arguments, so the same sample is "
+               f"k is '{show(sc0.k)[:100]}': it reads the prediction subgraph / the arguments, so the same sample is "
                "classified with another k in a batch of another size", line=sc0.per.line)
     scratch = {}
     for ev in wk.events:
@@ -195,6 +195,9 @@ def check_one(chk, rep, repo, cls, eff):
             if not (c[0] == "listcomp" and len(c[2]) == 1 and c[2][0][0] == ("attr", Q, "nodes") and not c[2][0][2]
                     and c[1][0] == "attr" and c[1][1] == ("iter", c[2][0][0], c[2][0][1])):
                 okr = False
+    if not okr and len(rets) == 1 and x is not None:
+        from ..rules_premise import appended_results
+        okr = appended_results(w, per, x, rets[0].value) is not None  # one `out.append(node.field)` per query, after its stores
     rep.fn("NI-result-order", fn, "results are listed per query node, in query order", okr,
            f"returns '{show(rets[0].value)[:120] if rets else '?'}'")
     return len(scans)
